@@ -1056,6 +1056,8 @@ def check_fs(rep, tier):
                 continue
             if not shape_ok:
                 violation(rep, f"fs `{label}`: result is neither (), a string, nor exactly struct{{error_code: int, msg: string}}: {out}", case)
+                rep.violations.append({"property": "C01", "lane": "L12", "case": case,
+                                       "what": f"std.fs result does not inhabit the declared result type (() | string | struct{{error_code: int, msg: string}}): {out[:200]}"})
                 continue
             rep.count(f"L12.fs.{kind}")
             want = expect[0] if isinstance(expect, tuple) else expect
